@@ -1,7 +1,7 @@
 (* Props/C07.v — property C07: theorems only; each closed by [exact] of a lemma proved elsewhere, followed by
    Print Assumptions. The statements are about every trace admitted by the protocol model (Sim/Proto.v,
    rules with constants regenerated from /repo), at every position of the trace. *)
-From LE Require Import Base Ev World Mon Mon2 Proto Consts GenGuards Config ConfigSpec GenConfig SimBasics SimOwn SimCallbacks SimTheorems GuardFacts Timing Witness Env EnvT SimRefresh SimLease SimWatch SimLeaseT SimLeaseC SimStable Causes SimCauses Witness2.
+From LE Require Import Base Ev World Mon Mon2 Proto Consts GenGuards Config ConfigSpec GenConfig SimBasics SimOwn SimCallbacks SimTheorems GuardFacts Timing Witness Env EnvT SimRefresh SimLease SimWatch SimLeaseT SimLeaseC SimStable Causes SimCauses SimValid Witness2.
 Open Scope Z_scope.
 
 Theorem C07_lease_never_lapses_under_fast_store :
@@ -77,3 +77,44 @@ Print Assumptions C07_partial_never_demoted_by_connection_health_or_acquisition.
 Theorem C07_partial_quiet_nonvacuous : cadmits base0 caux0 lease_witness = true /\ envQ_admits lease_witness = true.
 Proof. exact quiet_witness. Qed.
 Print Assumptions C07_partial_quiet_nonvacuous.
+
+(* the last cause other than a stop: in the fast-store environment the instance's own validation loop never gives up a claim
+   (Proofs/SimValid.v). Rule 2086 (the loop acts only on a validation read issued after the running term began that timed out or
+   was answered with an error or a foreign record) meets: a fast store answers before the time-out; no answer is an error; a read
+   applied while its issuer claims returns the issuer's own record (lease invariant) in the view of the decoder the validation
+   uses (rule 2090). *)
+Theorem C07_partial_never_demoted_by_validation :
+  forall tr, admits base0 tr = true -> cadmits base0 caux0 tr = true -> envC_admits base0 tr = true ->
+  forall pre te post, tr = pre ++ te :: post -> val_demotion (brun pre) te = false.
+Proof. exact C07_never_demoted_by_validation. Qed.
+Print Assumptions C07_partial_never_demoted_by_validation.
+
+(* all together: in the property's environment - a store that answers within half a heartbeat interval without transport
+   faults, nobody else writing the bucket, no takeover or health checker configured, no expiry or Delete under a holder
+   (envC, env), no connection notification and no unhealthy result (envQ) - no observation of any admitted trace shows a claim
+   given up by the refresh-failure path, the watcher, the connection paths, the health path, an acquisition round or the
+   instance's own validation loop: what is left is a stop call, the cancellation of the context passed to Start and the
+   fencing check the application itself asks for (ValidateTokenOrDemote).
+   PARTIAL with respect to the property text: (1) the local rules (Proto.v, Causes.v) are validated on real traces, not
+   derived from the source; (2) "no Delete under a holder" is the residual window D5; (3) "with the same token" and the
+   callbacks are C05 / C08. *)
+Theorem C07_partial_only_a_stop_ends_a_term :
+  forall tr, admits base0 tr = true -> cadmits base0 caux0 tr = true ->
+  envC_admits base0 tr = true -> env_admits base0 tr = true -> envQ_admits tr = true ->
+  forall pre te post, tr = pre ++ te :: post ->
+    hb_demotion (brun pre) te = false /\ watch_demotion (brun pre) te = false /\
+    other_demotion (brun pre) te = false /\ val_demotion (brun pre) te = false.
+Proof.
+  exact (fun tr A Ca EC E0 EQ pre te post Eq =>
+    conj (C07_never_demoted_by_refresh_failure tr A EC pre te post Eq)
+   (conj (C07_never_demoted_by_the_watcher tr A E0 pre te post Eq)
+   (conj (C07_never_demoted_by_connection_health_or_acquisition tr base0 caux0 eq_refl eq_refl Ca EQ pre te post Eq)
+         (C07_never_demoted_by_validation tr A Ca EC pre te post Eq)))).
+Qed.
+Print Assumptions C07_partial_only_a_stop_ends_a_term.
+
+Theorem C07_partial_all_nonvacuous :
+  admits base0 lease_witness = true /\ cadmits base0 caux0 lease_witness = true /\ envC_admits base0 lease_witness = true /\
+  env_admits base0 lease_witness = true /\ envQ_admits lease_witness = true.
+Proof. exact (conj lease_witness_admitted (conj (proj1 quiet_witness) (conj lease_witness_envC (conj lease_witness_env (proj2 quiet_witness))))). Qed.
+Print Assumptions C07_partial_all_nonvacuous.
